@@ -337,12 +337,18 @@ pub fn run_spline_job_t<T: Fl>(job: &SplineJob, want: Want, out: &mut JobOut) {
         // the exact reference, when in reach
         let rs = if want.exact && n <= want.exact_max_n && !job.nearly_closed {
             let yr: Vec<Rat> = lane.y.iter().map(|&v| Rat::from_f64(v)).collect();
-            Some(RefSpline::solve(&axis.rat(), &yr, cond))
+            // (fine-grained boundary values on wide-ratio axes can leave the i128 range: then only the
+            // end-condition residuals are judged for this lane)
+            let r = crate::driver::try_exact(|| RefSpline::solve(&axis.rat(), &yr, cond));
+            if r.is_none() {
+                out.count("exact_reference_outside_i128(end_residuals_only)", 1);
+            }
+            r
         } else {
             None
         };
         let scale = match &rs {
-            Some(r) => r.scale().to_f64().max(f64::MIN_POSITIVE),
+            Some(r) => crate::driver::try_exact(|| r.scale().to_f64()).unwrap_or(scale_a).max(f64::MIN_POSITIVE),
             None => scale_a.max(f64::MIN_POSITIVE),
         };
         let nontrivial_lane = lane.y.iter().any(|&v| v != lane.y[0]);
@@ -545,7 +551,10 @@ pub fn run_spline_job_t<T: Fl>(job: &SplineJob, want: Want, out: &mut JobOut) {
             let mut bad: Option<String> = None;
             for (qi, &q) in q64.iter().enumerate() {
                 let iv = (qi / den).min(n - 2);
-                let exact = rs.eval_piece(iv, Rat::from_f64(q));
+                let Some(exact) = crate::driver::try_exact(|| rs.eval_piece(iv, Rat::from_f64(q))) else {
+                    out.count("exact_value_outside_i128(sample skipped)", 1);
+                    continue;
+                };
                 let ex = exact.to_f64();
                 let got = res[[qi, j]].to_f64();
                 let sc = scale.max(ex.abs());
